@@ -2,10 +2,11 @@ package mon
 
 import (
 	"bytes"
+	"context"
 	"encoding/json"
 	"fmt"
-	"io"
 	"github.com/goark/go-cvss/v3/report"
+	"io"
 	"math/rand/v2"
 	"os"
 	"os/exec"
@@ -531,7 +532,11 @@ func runC16(r *Run) int {
 	raceEnabled := false
 	// reference: a sequential child (one goroutine) per round seed gives the expected digest
 	runOne := func(round int, c cfg, tag string) (*c16result, error) {
-		cmd := exec.Command(monBin, "c16child", fmt.Sprint(r.Seed), fmt.Sprint(round), fmt.Sprint(c.G), fmt.Sprint(c.ops))
+		// generous watchdog per child (a normal round takes seconds): corrupted shared state can make a child spin
+		// for ever; what it logged before (race reports) is still evidence
+		ctx, cancel := context.WithTimeout(context.Background(), time.Duration(r.Pick(6, 15))*time.Minute)
+		defer cancel()
+		cmd := exec.CommandContext(ctx, monBin, "c16child", fmt.Sprint(r.Seed), fmt.Sprint(round), fmt.Sprint(c.G), fmt.Sprint(c.ops))
 		cmd.Env = append(os.Environ(), fmt.Sprintf("GOMAXPROCS=%d", c.procs),
 			"GORACE=halt_on_error=0 exitcode=0 log_path="+filepath.Join(r.OutDir, fmt.Sprintf("race-%s%d", tag, round)))
 		if round%3 == 1 {
@@ -540,6 +545,9 @@ func runC16(r *Run) int {
 		var stderr bytes.Buffer
 		cmd.Stderr = &stderr
 		out, err := cmd.Output()
+		if ctx.Err() != nil {
+			return nil, fmt.Errorf("child did not finish within %d minutes (killed): %v", r.Pick(6, 15), ctx.Err())
+		}
 		if err != nil {
 			return nil, fmt.Errorf("%v stderr: %s", err, clip(stderr.String(), 2000))
 		}
@@ -576,7 +584,22 @@ func runC16(r *Run) int {
 				os.WriteFile(p, []byte(err.Error()), 0o644)
 				w.Violate(Violation{Monitor: "C16", Check: "concurrent use does not crash the process", Case: Case{Type: "concurrent", Args: map[string]string{"round": fmt.Sprint(round), "goroutines": fmt.Sprint(c.G), "gomaxprocs": fmt.Sprint(c.procs), "ops": fmt.Sprint(c.ops)}}, Observed: clip(err.Error(), 1500)})
 			} else {
-				r.Inconclusive("child of round %d failed: %v", round, err)
+				// what the child logged before it failed is still evidence
+				cs := Case{Type: "concurrent", Args: map[string]string{"round": fmt.Sprint(round), "goroutines": fmt.Sprint(c.G), "gomaxprocs": fmt.Sprint(c.procs), "ops": fmt.Sprint(c.ops)}}
+				inLib := 0
+				if n, reps := parseRaceLogs(filepath.Join(r.OutDir, fmt.Sprintf("race-*%d.*", round))); n > 0 {
+					for _, rp := range reps {
+						if rp.InLib {
+							inLib++
+							w.Violate(Violation{Monitor: "C16", Check: "no data race (Go race detector)", Case: cs, Observed: rp.Key + fmt.Sprintf(" (%d reports; the child process then failed: %v)", rp.Count, clip(err.Error(), 200)), Note: rp.First})
+						}
+					}
+				}
+				if inLib == 0 {
+					r.Inconclusive("child of round %d failed: %v", round, err)
+				} else {
+					break // violations recorded; further rounds would only wait for the same failure again
+				}
 			}
 			continue
 		}
